@@ -1028,6 +1028,38 @@ void add_compositions()
         o << finish(r, "int") << " captured=" << captured;
         return o.s;
     });
+    // swapping wrappers exchanges their targets (bind_front / not_fn wrappers are not assignable in std either)
+    add_family("swap.wrappers", "reference_wrapper", 3, 1, []<class L>(int x, int) {
+        begin();
+        Logger f{3};
+        Logger g{4};
+        int r = 0;
+        switch (x) {
+        case 0: {
+            auto a = L::ref(f);
+            auto b = L::ref(g);
+            L::swap(a, b);
+            r = a(1) * 10000 + b(2) + (&a.get() == &g ? 100000000 : 0);
+            break;
+        }
+        case 1: {
+            auto a = make_fref<L, int(int)>(f);
+            auto b = make_fref<L, int(int)>(g);
+            L::swap(a, b);
+            r = a(1) * 10000 + b(2);
+            break;
+        }
+        default: { // copy assignment of reference_wrapper / function_ref re-binds
+            auto a = L::ref(f);
+            auto b = make_fref<L, int(int)>(f);
+            a      = L::ref(g);
+            b      = make_fref<L, int(int)>(g);
+            r      = a(1) * 10000 + b(2);
+            break;
+        }
+        }
+        return finish(r, "int");
+    });
 }
 
 void build()
